@@ -83,6 +83,7 @@ def run(module, cfg=None, workers=16, simulate=None, depth=None, seed=None, cove
     if dfs:
         jopts.append('-Dtlc2.tool.queue.IStateQueue=StateDeque')
     jopts.append('-Xmx%s' % (heap or '6g'))
+    jopts.append('-Xss64m')          # the recursive scanners of Lexer.tla go one frame per character (long definition texts, comments)
     if jopts:
         e['JAVA_TOOL_OPTIONS'] = (e.get('JAVA_TOOL_OPTIONS', '') + ' ' + ' '.join(jopts)).strip()
     if env:
